@@ -517,6 +517,16 @@ pub fn make_rig<V: VringT<GM> + Clone + Send + Sync + 'static>(cfg: Cfg, adapter
         handlers_reg: reg,
         alive: true,
     };
+    // the workers name themselves when they start running: wait until all of them can be seen, so that a later
+    // undercount means a worker has really terminated
+    let t0 = Instant::now();
+    while live_workers() < nthreads {
+        if t0.elapsed() > Duration::from_secs(60) {
+            eprintln!("TOOL-ERROR: worker threads did not start within 60 s");
+            std::process::exit(3);
+        }
+        std::thread::sleep(Duration::from_micros(100));
+    }
     // one barrier listener per worker
     for t in 0..nthreads {
         let e = Arc::new(EventFd::new(libc::EFD_NONBLOCK).unwrap());
